@@ -501,12 +501,16 @@ def parse_impl(rc, text):
                 junk.append("unbalanced: " + l)
                 continue
             fr = stack[-1]
+            ms, ml = re.search(r"stmt=(\d+)", rest), re.search(r"loop=(\d)", rest)
+            if (kind in ("exec", "yield", "return") and not ms) or (kind == "yield" and not ml):
+                junk.append("malformed trace line: " + l)          # e.g. cut short by a crash
+                continue
             if kind == "exec":
-                fr[1].append("x" + re.search(r"stmt=(\d+)", rest).group(1))
+                fr[1].append("x" + ms.group(1))
             elif kind == "yield":
-                fr[1].append("y%s:%s" % (re.search(r"loop=(\d)", rest).group(1), re.search(r"stmt=(\d+)", rest).group(1)))
+                fr[1].append("y%s:%s" % (ml.group(1), ms.group(1)))
             elif kind == "return":
-                fr[1].append("r" + re.search(r"stmt=(\d+)", rest).group(1))
+                fr[1].append("r" + ms.group(1))
             elif kind == "blocked":
                 fr[2] = True
             elif kind == "unblocked":
